@@ -162,6 +162,11 @@ func sigFor(p PathSpec, label string, si *shapeInfo) string {
 			// array stays in the Conf as it is, typed, secret included
 			return "confmap/array-not-encoded"
 		}
+		if si.marshaler {
+			// the shape holds a struct with a custom confmap.Marshaler: what its
+			// Marshal put into the Conf is (not) rendered by the encoder
+			return "confmap/custom-marshaler"
+		}
 		return "confmap"
 	default:
 		return p.K + "/" + p.V
